@@ -157,13 +157,13 @@ func repoHead() string {
 
 // reproduces decides whether the native outcome confirms the engine's finding.
 func reproduces(f exec.Finding, o nativeOutcome) bool {
-	switch f.Kind {
-	case "check":
-		return o.Outcome == "check-failed "+f.Label
-	case "panic":
-		return strings.HasPrefix(o.Outcome, "panic") || strings.HasPrefix(o.Outcome, "crash")
-	case "budget":
-		return o.Outcome == "timeout" || strings.HasPrefix(o.Outcome, "crash")
+	// The native run of the harness against the real build is the ground truth: any failed
+	// assertion, panic, crash or hang on the solver's input is a violation on the real code,
+	// even when it is an earlier assertion than the one the engine named (natively the first
+	// failing check stops the run; the engine continues past a violated check).
+	switch {
+	case strings.HasPrefix(o.Outcome, "check-failed"), strings.HasPrefix(o.Outcome, "panic"), strings.HasPrefix(o.Outcome, "crash"), o.Outcome == "timeout":
+		return true
 	}
 	return false
 }
